@@ -270,5 +270,85 @@ func runCExtras(args []string) {
 		ev["panic"] = p
 		tw.emit(ev)
 	}
+	// ToMapRecursive / AssertValues on trees of ordered maps with tombstones
+	hasOrdered := func(x any) bool { return false }
+	var ho func(x any) bool
+	ho = func(x any) bool {
+		switch t := x.(type) {
+		case *ordered.MapSA:
+			return true
+		case map[string]any:
+			for _, v := range t {
+				if ho(v) {
+					return true
+				}
+			}
+		case []any:
+			for _, v := range t {
+				if ho(v) {
+					return true
+				}
+			}
+		}
+		return false
+	}
+	hasOrdered = ho
+	for i := 0; i < n; i++ {
+		m := tombstoneMap(rng, 2+rng.Intn(12))
+		in := toAV(m)
+		var out any
+		p, _ := guarded(func() { out = ordered.ToMapRecursive(m) })
+		ev := obj{"kind": "tomaprec", "in": in, "out": obj{"t": "z"}, "noordered": false, "inafter": toAV(m), "panic": p}
+		if !p {
+			ev["out"], ev["noordered"] = objAV(out), !hasOrdered(out)
+		}
+		tw.emit(ev)
+		// AssertValues[string]: succeeds exactly when every value is a string
+		am := ordered.NewMap[string, any](0)
+		for j, k := 0, rng.Intn(6); j < k; j++ {
+			var v any = fmt.Sprintf("s%d", j)
+			if rng.Intn(5) == 0 {
+				v = []any{1, true, nil, 2.5, am}[rng.Intn(4)]
+			}
+			am.Set(fmt.Sprintf("k%d", rng.Intn(8)), v)
+		}
+		if rng.Intn(3) == 0 {
+			am.Delete("k1")
+		}
+		ev2 := obj{"kind": "assertvalues", "in": toAV(am), "ok": false, "out": obj{"t": "z"}}
+		p2, _ := guarded(func() {
+			ms, err := ordered.AssertValues[string](am)
+			ev2["ok"] = err == nil
+			if err == nil {
+				kv := []any{}
+				ms.Range(func(k, v string) error { kv = append(kv, []any{k, avStr(v)}); return nil })
+				ev2["out"] = obj{"t": "m", "kv": kv}
+			}
+		})
+		ev2["panic"] = p2
+		tw.emit(ev2)
+	}
+	// NewScalarStep: the whole table plus near misses
+	for _, sc := range []string{"wait", "waiter", "block", "input", "manual", "", "Wait", "wait ", "command", "trigger", "group", "waiter2", "~", "null", "true"} {
+		ev := obj{"kind": "scalarstep", "s": sc, "steptype": "", "warned": false, "scalar": ""}
+		p, _ := guarded(func() {
+			st, err := pipeline.NewScalarStep(sc)
+			ev["warned"] = err != nil && warning.Is(err)
+			ev["harderr"] = err != nil && !warning.Is(err)
+			switch t := st.(type) {
+			case *pipeline.WaitStep:
+				ev["steptype"], ev["scalar"] = "wait", t.Scalar
+			case *pipeline.InputStep:
+				ev["steptype"], ev["scalar"] = "input", t.Scalar
+			case *pipeline.UnknownStep:
+				ev["steptype"] = "unknown"
+				ev["scalar"], _ = t.Contents.(string)
+			default:
+				ev["steptype"] = fmt.Sprintf("%T", st)
+			}
+		})
+		ev["panic"] = p
+		tw.emit(ev)
+	}
 	writeSummary(fl.str("summary", ""), obj{"events": tw.n})
 }
